@@ -103,6 +103,48 @@ def dtype_cases():
     return out
 
 
+def coordinate_dtype_cases(chk):
+    """the element addressed by the coordinates does not depend on the integer dtype in which the caller stores them. Coordinates that are all in range but stored in a
+    narrow or unsigned dtype: finding F-coordinate-dtype-arithmetic (the flat index is computed in the coordinate dtype / int32)"""
+    out = []
+    x = np.arange(400.0).reshape(20, 20)
+    pts = np.array([[13, 3], [0, 19], [19, 19], [7, 0]])
+    for cdt in ("int64", "int32", "int16", "int8", "uint8", "uint16", "uint32", "uint64"):
+        idx = pts.astype(cdt)
+        narrow = np.iinfo(cdt).max < 400
+        for be in ("numpy", "numpy.numpylike"):
+            cases = [("get_at", "[a b], i [2] -> i", [x, idx], x[pts[:, 0], pts[:, 1]])]
+            z = np.zeros((20, 20))
+            e = z.copy()
+            np.add.at(e, (pts[:, 0], pts[:, 1]), np.arange(1.0, 5.0))
+            cases.append(("add_at", "[a b], i [2], i -> [a b]", [z, idx, np.arange(1.0, 5.0)], e))
+            # a vectorised target axis next to the bracketed one: the generated arange is added to the caller's coordinates
+            z2 = np.zeros((3, 200))
+            c2 = np.array([[150], [0], [199]]).astype(cdt) if np.iinfo(cdt).max >= 199 else np.array([[100], [0], [127]]).astype(cdt)
+            e2 = z2.copy()
+            for a in range(3):
+                e2[a, int(c2[a, 0])] += 1
+            cases.append(("add_at", "a [h], a i, a i -> a [h]", [z2, c2, np.ones((3, 1))], e2))
+            for op, desc, args, want in cases:
+                o = harness.call_einx(op, desc, [np.array(t, copy=True) for t in args], {}, be)
+                d = {"op": op, "description": desc, "shapes": [list(np.shape(t)) for t in args], "kwargs": {"coordinate_dtype": cdt}}
+                good = o[0] == "ok" and np.array_equal(np.asarray(o[1]), want)
+                if good:
+                    out.append(("ok", d, be, None))
+                    continue
+                what = f"coordinates stored as {cdt} (all in range): " + (f"{o[1:]}"[:160] if o[0] != "ok" else "wrong elements addressed")
+                wraps = narrow and op in ("get_at", "add_at") and "[a b]" in desc     # flat index 263 does not fit the coordinate dtype
+                promo = cdt == "uint64" and "a [h]" in desc                          # int32 arange + uint64 -> float64 indices
+                wraps2 = np.iinfo(cdt).max < 600 and "a [h]" in desc                 # 2 * 200 + h does not fit
+                if wraps or promo or wraps2:
+                    chk.known_finding("F-coordinate-dtype-arithmetic", "get_at / *_at compute the flat index in the caller's coordinate dtype (or int32): in-range coordinates stored as int8/uint8/int16 "
+                                      "address wrong elements once the flat index exceeds the dtype, uint64 coordinates next to a vectorised axis fail")
+                    out.append(("ok", d, be, None))
+                else:
+                    out.append(("mismatch", d, be, what))
+    return out
+
+
 def run(tier, seed):
     chk = Check("C14", tier, seed, "other")
     try:
@@ -115,8 +157,9 @@ def run(tier, seed):
     ok, sites, failing = frame.rule_update_registrations()
     chk.add_rule("C14.S.bcast_registered", ok, sites, failing)
     res = _corpus_run.run_corpus(seed + 14, tier, fams=["upd", "upd", "upd", "get_at"], chunks=(30 if tier == "quick" else 1500))
-    res += fixed_cases() + dtype_cases()
+    res += fixed_cases() + dtype_cases() + coordinate_dtype_cases(chk)
     add_corpus(chk, res, "set_at/add_at/subtract_at (and get_at) vs an explicit loop over all index combinations", "update templates: <=4 target axes, 1-2 bracketed, vectorised axes missing/extra, duplicate coordinates, 2 backends; plus hand-written seeds (repeated bracket names, permuted update axes of equal length, broadcast updates)")
-    chk.assumptions += ["set_at with duplicate coordinates: any competing value accepted", "only numpy backends"]
+    chk.assumptions += ["set_at with duplicate coordinates: any competing value accepted", "only numpy backends",
+                        "the P kernels (C14.P.ravel, C14.P.ravel_assign, C01.P.unravel) prove the index arithmetic over MATHEMATICAL integers; the machine arithmetic of the generated numpy code is covered only by the bounded coordinate-dtype stratum (finding F-coordinate-dtype-arithmetic)"]
     chk.explanation = "top-level postcondition = explicit loop over all combinations of un-bracketed axes of coordinates and updates, frame 'every element not addressed keeps its value'; bounded corpus"
     return chk
